@@ -260,7 +260,7 @@ struct HState {
   HNode* nd[HN]; bool in[HN]; unsigned count;
   ArenaHashNode** buckets;
 };
-template<unsigned PIDX, bool EMBEDDED>
+template<unsigned PIDX, bool EMBEDDED, unsigned LIM>
 static inline void hash_build(ArenaHash<HNode>& t, HState& s) {
   for (unsigned i = 0; i < HN; i++) { s.nd[i]->_hash_code = nondet_u8(); s.nd[i]->key = s.nd[i]->_hash_code ^ 0x5A5A5A5Au; s.nd[i]->_hash_next = nullptr; s.nd[i]->_custom_data = i; s.in[i] = false; }
   for (unsigned i = 0; i < 11; i++) s.buckets[i] = nullptr;
@@ -270,7 +270,7 @@ static inline void hash_build(ArenaHash<HNode>& t, HState& s) {
     t._rcp_value = ArenaHash_prime_array[PIDX].rcp; t._rcp_shift = ArenaHash_prime_shift[PIDX]; t._prime_index = uint8_t(PIDX);
   }
   s.count = 0;
-  const unsigned limit = EMBEDDED ? 1 : 4;
+  const unsigned limit = EMBEDDED ? 1 : LIM;
   for (unsigned i = 0; i < 4; i++) {
     if (s.count < limit && nondet_bool()) {
       uint32_t b = ref_mod(s.nd[i]->_hash_code, t._buckets_count);
@@ -314,7 +314,7 @@ __attribute__((noinline)) static void hash_check(ArenaHash<HNode>& t, HState& s)
 }
 
 // PIDX: prime index of the pre-state table (EMBEDDED: the single embedded bucket); RIDX: target of the explicit rehash.
-template<unsigned PIDX, bool EMBEDDED, unsigned RIDX, unsigned OP>
+template<unsigned PIDX, bool EMBEDDED, unsigned RIDX, unsigned OP, unsigned LIM = 4>
 static void hash_step() {
   // never-constructed Arena object: only its slot lists are touched (free_reusable of the old bucket array)
   alignas(8) static unsigned char arena_mem[sizeof(Arena)]; memset(arena_mem, 0, sizeof arena_mem);
@@ -323,7 +323,7 @@ static void hash_step() {
   ArenaHash<HNode> t; HState s;
   HNode n0, n1, n2, n3, n4; ArenaHashNode* bucket_mem[11];
   s.nd[0] = &n0; s.nd[1] = &n1; s.nd[2] = &n2; s.nd[3] = &n3; s.nd[4] = &n4; s.buckets = bucket_mem;
-  hash_build<PIDX, EMBEDDED>(t, s);
+  hash_build<PIDX, EMBEDDED, LIM>(t, s);
   const unsigned nb0 = EMBEDDED ? 1u : ArenaHash_prime_array[PIDX].prime;
   const unsigned op = OP;  // one operation per harness: the formula of all three together costs a minute per solver call
   verif_observe(s.count);
@@ -357,6 +357,10 @@ static void hash_step() {
   HARNESS h_hash_##NAME##_insert() { hash_step<PIDX, EMB, RIDX, 0>(); } \
   HARNESS h_hash_##NAME##_remove() { hash_step<PIDX, EMB, RIDX, 1>(); } \
   HARNESS h_hash_##NAME##_rehash() { hash_step<PIDX, EMB, RIDX, 2>(); }
+// variants with at most 2 nodes in the pre-state: the 4-node versions of these three get no verdict from the SAT back end in 15 min
+HARNESS h_hash_p2_insert_n2() { hash_step<0, false, 1, 0, 2>(); }
+HARNESS h_hash_p2_rehash_n2() { hash_step<0, false, 1, 2, 2>(); }
+HARNESS h_hash_p11_rehash_n2() { hash_step<1, false, 2, 2, 2>(); }
 HASH_H(embedded, 0, true, 0)   // 1 bucket; insert -> 29, rehash -> 2
 HASH_H(p2, 0, false, 1)        // 2 buckets; insert -> 29, rehash -> 11
 HASH_H(p11, 1, false, 2)       // 11 buckets; insert stays, rehash -> 29
